@@ -105,6 +105,19 @@ Theorem c14_for_each_exact : forall c progs sch, no_wrap_in_window c progs sch -
 Proof. exact idw_for_each_exact. Qed.
 Print Assumptions c14_for_each_exact.
 
+(* the scan bound of for_each as the source computes it, min(capacity of the link table, _next_value), is _next_value at
+   quiescence for EVERY configuration - in particular for 16-bit ids with up to the documented 65534 live values, where
+   the capacity (whole blocks of FREE_BLOCK = 128 cells) reaches 65536 = 2^16: a bound computed in the id type would
+   wrap to 0 there (c14_for_each_bound_in_id_type_refuted) *)
+Theorem c14_for_each_scans_all_minted : forall c progs s, Reach c progs s -> quiescent s = true ->
+  foreach_bound c (sh s) = nv (sh s).
+Proof. exact quiescent_bound. Qed.
+Print Assumptions c14_for_each_scans_all_minted.
+Theorem c14_for_each_bound_in_id_type_refuted :
+  exists capacity next, 0 < next <= 65534 /\ next <= capacity /\ capacity mod FREE_BLOCK = 0 /\
+                        Z.min (capacity mod (65535 + 1)) next = 0.
+Proof. exists 65536, 65534. repeat split; try reflexivity; discriminate. Qed.
+
 (* thread ids: two different threads never own the same value, whatever the order of births and deaths *)
 Theorem c14_thread_ids : forall c progs sch, no_wrap_in_window c progs sch ->
   let s := run st (step c) (init c progs) sch in
